@@ -154,6 +154,48 @@ func c02Gen(rt *rapid.T) wProg {
 			}
 			p.Ops = append(p.Ops, wOp{K: "upload", S: s}, wOp{K: "sub", S: s, T: "g0"}, wOp{K: "fault", N: fk, A: fm},
 				wOp{K: "pub", S: s, T: "g0", X: []string{"$file0"}}, wOp{K: "pub", S: s, T: "g0"})
+		case y >= 8 && y < 12:
+			// P2P: one participant unsubscribes and is invited back by the other while the topic stays
+			// loaded, attaches again, both publish
+			s1 := -1
+			for k := range p.Sess {
+				if p.Sess[k] == 1 {
+					s1 = k
+					break
+				}
+			}
+			if s1 > 0 {
+				p.Ops = append(p.Ops, wOp{K: "sub", S: 0, T: "p1"}, wOp{K: "sub", S: s1, T: "p0"}, wOp{K: "leave", S: s1, T: "p0", F: true},
+					wOp{K: "set", S: 0, T: "p1", A: "given", U: 1, B: gPick(rt, []string{"JRWPA", "JRWPA", "JRWA", ""}, "reinvite")},
+					wOp{K: "sub", S: s1, T: "p0"}, wOp{K: "pub", S: 0, T: "p1"}, wOp{K: "pub", S: s1, T: "p0"})
+			}
+		case y >= 12 && y < 16 && isChan:
+			// a channel none of whose full subscribers holds both R and P: the push goes to the channel address only
+			p.Ops = append(p.Ops, wOp{K: "sub", S: 0, T: "g0"}, wOp{K: "set", S: 0, T: "g0", A: "mode", B: gPick(rt, []string{"JRWASDO", "JWPASDO"}, "ownmode")})
+			for u := 1; u <= 3; u++ {
+				p.Ops = append(p.Ops, wOp{K: "set", S: 0, T: "g0", A: "given", U: u, B: gPick(rt, []string{"JRW", "JWP", "JRW", "N"}, "nopush")})
+			}
+			p.Ops = append(p.Ops, wOp{K: "pub", S: 0, T: "g0"})
+		case y >= 16 && y < 21 && p.Cfg.Root:
+			// the root session leaves and attaches again on behalf of a member who may not read (or may)
+			tgt := gInt(rt, 1, 2, "obotgt")
+			p.Ops = append(p.Ops, wOp{K: "sub", S: 0, T: "g0"}, wOp{K: "set", S: 0, T: "g0", A: "given", U: tgt, B: gPick(rt, []string{"JWP", "JWP", "JRWP", "JWPS"}, "obogiven")},
+				wOp{K: "leave", S: 0, T: "g0"}, wOp{K: "sub", S: 0, T: "g0", Obo: tgt + 1}, wOp{K: "pub", S: 0, T: "g0", Obo: tgt + 1})
+			for k := 1; k < len(p.Sess); k++ {
+				if p.Sess[k] != tgt && gPct(rt, 60) {
+					p.Ops = append(p.Ops, wOp{K: "pub", S: k, T: "g0"})
+				}
+			}
+		case y >= 21 && y < 25:
+			// a member without W asks for it, the store fails at that very update, the member publishes
+			if k := gInt(rt, 1, len(p.Sess)-1, "nowriter"); p.Sess[k] != 0 {
+				p.Ops = append(p.Ops, wOp{K: "sub", S: k, T: "g0", A: gPick(rt, []string{"JRP", "JRP", "JR"}, "now")}, wOp{K: "fault", N: 1, A: "SubsUpdate"},
+					wOp{K: "set", S: k, T: "g0", A: "mode", B: "JRWP"}, wOp{K: "pub", S: k, T: "g0"})
+			}
+		case y >= 25 && y < 28:
+			// the owner's {del topic} fails in the store: the topic lives on and takes messages
+			p.Ops = append(p.Ops, wOp{K: "sub", S: 0, T: "g0"}, wOp{K: "fault", N: 1, A: "TopicDelete"}, wOp{K: "del", S: 0, T: "g0", A: "topic", F: gPct(rt, 50)},
+				wOp{K: "pub", S: 0, T: "g0"})
 		case y < 8 && p.Cfg.Root:
 			// P2P: one participant unsubscribes, the topic unloads, the other one is suspended, the first
 			// comes back (the topic is loaded with one subscription missing) and publishes
